@@ -1539,13 +1539,14 @@ class SpaceManager(SharedSpaceOperations):
 
         for subspace in self._get_subs(space):
             is_relative = False
+            subvalue = value
             if name in subspace.own_refs:
-                break
+                continue
             if isinstance(value, Interface) and value._is_valid():
                 if refmode == "auto" or refmode == "relative":
-                    is_relative, value = self.get_relative_interface(
+                    is_relative, subvalue = self.get_relative_interface(
                         subspace, space.own_refs[name])
-            ref = subspace.on_create_ref(name, value, is_derived=True,
+            ref = subspace.on_create_ref(name, subvalue, is_derived=True,
                                    refmode=refmode)
             ref.is_relative = is_relative
 
@@ -1565,17 +1566,20 @@ class SpaceManager(SharedSpaceOperations):
 
         for subspace in self._get_subs(space):
             is_relative = False
+            subvalue = value
             subref = subspace.own_refs[name]
+            # Skip this sub space only: the other sub spaces may not
+            # inherit the reference through it
             if subref.is_defined():
-                break
+                continue
             elif subref.defined_bases[0] is not space.own_refs[name]:
-                break
+                continue
             if isinstance(value, Interface) and value._is_valid():
                 if (refmode == "auto"
                         or refmode == "relative"):
-                    is_relative, value = self.get_relative_interface(
+                    is_relative, subvalue = self.get_relative_interface(
                         subspace, space.own_refs[name])
-            ref = subspace.on_change_ref(name, value,
+            ref = subspace.on_change_ref(name, subvalue,
                                          is_derived=True, refmode=refmode,
                                          is_relative=is_relative)
             ref.is_relative = is_relative
